@@ -17,6 +17,7 @@ def alphabet(version: str, thorough: bool) -> list:
         evs.append([n, 255, 3, 0, 0, "55"])
         evs.append([n, 255, 3, 0, 11, "nm"])
         evs.append([n, 255, 3, 0, 12, "1.1"])
+        evs.append([n, 255, 3, 1, 0, "44"])
         if R.is2x(version):
             evs.append([n, 255, 3, 0, 22, "10"])
         for c in (3, 4):
@@ -24,6 +25,7 @@ def alphabet(version: str, thorough: bool) -> list:
             evs.append([n, c, 1, 0, 0, "a"])
             evs.append([n, c, 1, 0, 0, "b;c"])
             evs.append([n, c, 1, 0, 2, "a"])
+            evs.append([n, c, 1, 1, 2, "k"])  # the ack flag is set: still a set message to record
     if thorough:
         evs.append([255, 255, 3, 0, 3, ""])  # id request -> placeholder
         for n in (1, 2):
